@@ -34,7 +34,7 @@ ORIG_LOCALS = {
     "_plain_row": ['row', 'x'],
     "RawMeshData._prepare_faces": ['iF'],
     "RawMeshData._prepare_cells": ['iC'],
-    "RawMeshData._prepare_edges": ['N', 'is_valid', 'a', 'b', 'edges_invalid', 'new_edges', 'new_attrs', 'old_attrs',
+    "RawMeshData._prepare_edges": ['N', 'is_valid', 'a', 'b', 'seen', 'keep', 'key', 'edges_invalid', 'new_edges', 'new_attrs', 'old_attrs',
                                    'attr_name', 'n', 'ie', 'name'],
     "RawMeshData._generate_face_corners": ['nc', 'nf', 'f', 'iF', 'F', 'v'],
     "RawMeshData._generate_cell_corners": ['nce', 'nca', 'iC', 'C', 'v'],
@@ -472,9 +472,24 @@ def gen():
     pe = fdef(tree, "RawMeshData._prepare_edges", MD)
     parts.append(("RawMeshData._prepare_edges", T.sha(src, pe)))
     b = T.body_nodoc(pe)
+    # two accepted forms: an edge is dropped when it is invalid; or when it is invalid or was already declared (the first
+    # declaration is kept)
+    dedupe = False
+    if len(b) == 7 and [ast.unparse(x) for x in b[2:4]] == ["seen = set()", "keep = []"]:
+        lp = b[4]
+        if not (isinstance(lp, ast.For) and ast.unparse(lp.iter) == "self.edges" and ast.unparse(lp.target) == "(a, b)"
+                and [ast.unparse(x) for x in lp.body] == ["key = utils.keyify(int(a), int(b))",
+                                                          "keep.append(is_valid(a, b) and key not in seen)",
+                                                          "if keep[-1]:\n    seen.add(key)"]
+                and ast.unparse(b[5]) == "edges_invalid = not all(keep)"):
+            T.fail(MD, pe, "_prepare_edges: the keep-flag loop has an unexpected shape")
+        dedupe = True
+        b = [b[0], b[1], None, b[6]]
     if not (len(b) == 4 and ast.unparse(b[0]) == "N = len(self.vertices)" and isinstance(b[1], ast.FunctionDef)
             and b[1].name == "is_valid" and isinstance(b[3], ast.If)):
         T.fail(MD, pe, "_prepare_edges: unexpected structure")
+    defs.append("(* is an edge whose (keyified) pair was already declared dropped *)\n"
+                "Definition edges_dedupe : bool := %s." % ("true" if dedupe else "false"))
     iv = b[1]
     a0, a1 = [a.arg for a in iv.args.args]
     ib = T.body_nodoc(iv)
@@ -482,7 +497,7 @@ def gen():
         T.fail(MD, iv, "is_valid is not a single return")
     tr = Tr(MD, {a0: "a", a1: "b", "N": "N"})
     defs.append("(* _prepare_edges.is_valid *)\nDefinition edge_valid (a b N : Z) : bool := %s." % tr.b(ib[0].value))
-    if ast.unparse(b[2]) != "edges_invalid = any((not is_valid(a, b) for a, b in self.edges))":
+    if b[2] is not None and ast.unparse(b[2]) != "edges_invalid = any((not is_valid(a, b) for a, b in self.edges))":
         T.fail(MD, b[2], "edges_invalid is not `any(not is_valid(a,b) for a,b in self.edges)`")
     br = b[3]
     if ast.unparse(br.test) != "edges_invalid":
@@ -517,7 +532,7 @@ def gen():
     fe = tb[5]
     if not (ast.unparse(fe.iter) == "self.id_edges" and fe.target.id == "ie" and len(fe.body) == 2
             and ast.unparse(fe.body[0]) == "a, b = self.edges[ie]" and isinstance(fe.body[1], ast.If)
-            and ast.unparse(fe.body[1].test) == "is_valid(a, b)" and not fe.body[1].orelse):
+            and ast.unparse(fe.body[1].test) == ("keep[ie]" if dedupe else "is_valid(a, b)") and not fe.body[1].orelse):
         T.fail(MD, fe, "_prepare_edges: edge loop has an unexpected shape")
     ib2 = fe.body[1].body
     if not (len(ib2) == 3 and ast.unparse(ib2[0]) == "new_edges.append(utils.keyify(int(a), int(b)))"
